@@ -1,38 +1,584 @@
-//! smoke test of the deterministic scheduler on MemoryBudget (to be replaced by the C39 harness)
-use std::sync::Arc;
+//! C39 memory budget: drives the real `MemoryBudget` (allocate / release from 1-3 threads) under
+//! the deterministic scheduler.  A case = (requested limit, one program per thread, schedule);
+//! observed = per executed schedule entry the scheduler outcome, the number of calls the thread
+//! has completed and the five pool counters, plus every call's result.  After the given schedule
+//! the threads are run to completion round robin; those steps are part of the executed schedule.
+//!
+//! replay line:  lim=<bytes> progs=<t0>|<t1>|.. sched=<t,t,..>     op = a:<pool>:<n> (allocate),
+//!   r:<pool>:<n> (release), g:<k>:<pool>:<n> (release only if this thread's call k was an
+//!   allocate that succeeded); pools c q r s h (Cache Query Recovery Schema sHared); `-` = empty.
+use std::panic::{catch_unwind, AssertUnwindSafe};
+use std::sync::{Arc, Mutex};
+use turdb::memory::{MemoryBudget, MemoryError, Pool};
 use tvh::sched::*;
-use turdb::memory::{MemoryBudget, Pool};
+use tvh::*;
 
-fn run(sched_list: &[usize], progs: Vec<Vec<(bool, Pool, usize)>>) {
-    let b = Arc::new(MemoryBudget::with_limit(4 * 1024 * 1024));
-    let s = Scheduler::new(progs.len());
+#[derive(Clone, Copy, PartialEq, Debug)]
+enum Op {
+    A(usize, u64),
+    R(usize, u64),
+    G(usize, usize, u64),
+}
+
+const POOLS: [Pool; 5] = [Pool::Cache, Pool::Query, Pool::Recovery, Pool::Schema, Pool::Shared];
+const PCH: [char; 5] = ['c', 'q', 'r', 's', 'h'];
+const PCOQ: [&str; 5] = ["PCache", "PQuery", "PRecovery", "PSchema", "PShared"];
+const K: u64 = 1024;
+const M: u64 = 1024 * 1024;
+
+struct Obs {
+    code: i64,
+    done: usize,
+    cnts: [u64; 5],
+}
+struct Run {
+    lim: u64,
+    sched: Vec<usize>,
+    obs: Vec<Obs>,
+    results: Vec<Vec<i128>>,
+}
+
+fn run_case(limreq: u64, progs: &[Vec<Op>], sched: &[usize]) -> Run {
+    let b = Arc::new(MemoryBudget::with_limit(limreq as usize));
+    let n = progs.len();
+    let s = Scheduler::new(n);
     s.install();
+    let results: Vec<Arc<Mutex<Vec<i128>>>> = (0..n).map(|_| Arc::new(Mutex::new(vec![]))).collect();
     let mut hs = vec![];
-    for (id, prog) in progs.into_iter().enumerate() {
+    for (id, prog) in progs.iter().cloned().enumerate() {
         let b2 = Arc::clone(&b);
+        let rs = Arc::clone(&results[id]);
         hs.push(s.spawn(id, move || {
-            for (is_alloc, pool, n) in prog {
-                if is_alloc { let r = b2.allocate(pool, n); eprintln!("  t{} alloc {:?} {} -> {}", id, pool, n, r.is_ok()); }
-                else { b2.release(pool, n); eprintln!("  t{} release {:?} {}", id, pool, n); }
+            let mut mine: Vec<i128> = vec![];
+            for op in prog.iter() {
+                let code: i128 = match *op {
+                    Op::A(p, nb) => match catch_unwind(AssertUnwindSafe(|| b2.allocate(POOLS[p], nb as usize))) {
+                        Ok(Ok(())) => -1,
+                        Ok(Err(e)) => e.downcast_ref::<MemoryError>().map(|m| m.available as i128).unwrap_or(-5),
+                        Err(_) => -4,
+                    },
+                    Op::R(p, nb) => match catch_unwind(AssertUnwindSafe(|| b2.release(POOLS[p], nb as usize))) {
+                        Ok(()) => -2,
+                        Err(_) => -4,
+                    },
+                    Op::G(k, p, nb) => {
+                        if mine.get(k).copied() == Some(-1) {
+                            match catch_unwind(AssertUnwindSafe(|| b2.release(POOLS[p], nb as usize))) {
+                                Ok(()) => -2,
+                                Err(_) => -4,
+                            }
+                        } else {
+                            -3
+                        }
+                    }
+                };
+                mine.push(code);
+                rs.lock().unwrap().push(code);
+                if code == -4 {
+                    break;
+                }
             }
         }));
     }
     s.wait_all_started();
-    for &t in sched_list {
+    let mut exec: Vec<usize> = vec![];
+    let mut obs: Vec<Obs> = vec![];
+    let mut do_step = |t: usize| {
         let o = s.step(t);
-        eprintln!("step t{} -> {:?}  total_used={} limit={}", t, o, b.total_used(), b.total_limit());
+        let code = match o {
+            StepOutcome::Skipped => 0,
+            StepOutcome::Finished => 1,
+            StepOutcome::Blocked => 2,
+            StepOutcome::Reached(site) => site as i64,
+        };
+        let st = b.stats();
+        let done = results[t].lock().unwrap().len();
+        exec.push(t);
+        obs.push(Obs { code, done, cnts: [st.cache_used as u64, st.query_used as u64, st.recovery_used as u64, st.schema_used as u64, st.shared_used as u64] });
+    };
+    for &t in sched {
+        do_step(t);
     }
-    let ok = s.drain(100);
-    for h in hs { let _ = h.join(); }
+    // run everybody to completion, round robin; these steps are part of the executed schedule
+    let mut guard = 0;
+    while !s.all_finished() {
+        for id in 0..n {
+            if s.state(id) != TState::Finished {
+                do_step(id);
+                guard += 1;
+            }
+        }
+        if guard > 5000 {
+            eprintln!("c39: threads do not finish: {} states {:?} last obs {:?}", replay_line(limreq, progs, sched), (0..n).map(|i| s.state(i)).collect::<Vec<_>>(), obs.iter().take(12).map(|o| (o.code, o.done)).collect::<Vec<_>>());
+            std::process::exit(3);
+        }
+    }
+    for h in hs {
+        let _ = h.join();
+    }
     Scheduler::uninstall();
-    eprintln!("drained={} final total_used={} limit={}", ok, b.total_used(), b.total_limit());
+    let lim = b.total_limit() as u64;
+    Run { lim, sched: exec, obs, results: results.iter().map(|r| r.lock().unwrap().clone()).collect() }
+}
+
+// ---------------------------------------------------------------- printing / parsing
+fn op_line(o: &Op) -> String {
+    match *o {
+        Op::A(p, n) => format!("a:{}:{}", PCH[p], n),
+        Op::R(p, n) => format!("r:{}:{}", PCH[p], n),
+        Op::G(k, p, n) => format!("g:{}:{}:{}", k, PCH[p], n),
+    }
+}
+fn op_coq(o: &Op) -> String {
+    match *o {
+        Op::A(p, n) => format!("Alloc {} {}", PCOQ[p], n),
+        Op::R(p, n) => format!("Release {} {}", PCOQ[p], n),
+        Op::G(k, p, n) => format!("ReleaseIf {} {} {}", k, PCOQ[p], n),
+    }
+}
+fn replay_line(limreq: u64, progs: &[Vec<Op>], sched: &[usize]) -> String {
+    let ps: Vec<String> = progs
+        .iter()
+        .map(|p| if p.is_empty() { "-".to_string() } else { p.iter().map(op_line).collect::<Vec<_>>().join(",") })
+        .collect();
+    let ss: Vec<String> = sched.iter().map(|t| t.to_string()).collect();
+    format!("lim={} progs={} sched={}", limreq, ps.join("|"), ss.join(","))
+}
+fn pool_of(c: &str) -> Option<usize> {
+    PCH.iter().position(|x| c.len() == 1 && c.starts_with(*x))
+}
+fn parse_line(l: &str) -> Option<(u64, Vec<Vec<Op>>, Vec<usize>)> {
+    let mut lim = None;
+    let mut progs = None;
+    let mut sched = None;
+    for tok in l.split_whitespace() {
+        if let Some(v) = tok.strip_prefix("lim=") {
+            lim = v.parse::<u64>().ok();
+        } else if let Some(v) = tok.strip_prefix("progs=") {
+            let mut ps = vec![];
+            for t in v.split('|') {
+                let mut p = vec![];
+                if t != "-" && !t.is_empty() {
+                    for o in t.split(',') {
+                        let f: Vec<&str> = o.split(':').collect();
+                        let op = match (f.first().copied(), f.len()) {
+                            (Some("a"), 3) => Op::A(pool_of(f[1])?, f[2].parse().ok()?),
+                            (Some("r"), 3) => Op::R(pool_of(f[1])?, f[2].parse().ok()?),
+                            (Some("g"), 4) => Op::G(f[1].parse().ok()?, pool_of(f[2])?, f[3].parse().ok()?),
+                            _ => return None,
+                        };
+                        p.push(op);
+                    }
+                }
+                ps.push(p);
+            }
+            progs = Some(ps);
+        } else if let Some(v) = tok.strip_prefix("sched=") {
+            let mut sc = vec![];
+            if !v.is_empty() {
+                for x in v.split(',') {
+                    sc.push(x.parse::<usize>().ok()?);
+                }
+            }
+            sched = Some(sc);
+        }
+        // anything else (e.g. the `class=N` annotation of search mode) is ignored
+    }
+    let (lim, progs, sched) = (lim?, progs?, sched.unwrap_or_default());
+    if progs.is_empty() || sched.iter().any(|t| *t >= progs.len()) {
+        return None;
+    }
+    Some((lim, progs, sched))
+}
+fn case_term(limreq: u64, progs: &[Vec<Op>], r: &Run) -> String {
+    let ps: Vec<String> = progs.iter().map(|p| clist(&p.iter().map(op_coq).collect::<Vec<_>>())).collect();
+    let ss: Vec<String> = r.sched.iter().map(|t| t.to_string()).collect();
+    let os: Vec<String> = r
+        .obs
+        .iter()
+        .map(|o| format!("({},{},[{};{};{};{};{}])", o.code, o.done, o.cnts[0], o.cnts[1], o.cnts[2], o.cnts[3], o.cnts[4]))
+        .collect();
+    let rs: Vec<String> = r.results.iter().map(|v| clist(&v.iter().map(|x| z(*x)).collect::<Vec<_>>())).collect();
+    format!("Case {} {} {} {}%nat {} {}", limreq, r.lim, clist(&ps), clist(&ss), clist(&os), clist(&rs))
+}
+
+// ---------------------------------------------------------------- the property's oracle (Rust twin of Corr.C39.spec_ok)
+struct Verdict {
+    ok: bool,
+    /// 0 = fine; search annotation of a limit violation: 1 = another thread's allocation in a
+    /// different pool succeeded during the violating call, 2 = only in the same pool, 3 = none
+    /// (nothing concurrent explains it); 4 = accounting mismatch
+    class: u32,
+    overlap: bool,
+    peak: u64,
+}
+fn judge(progs: &[Vec<Op>], r: &Run) -> Verdict {
+    let n = progs.len();
+    let mut dones = vec![0usize; n];
+    let mut bal = [0u128; 5];
+    let mut taint = [false; 5];
+    let mut v = Verdict { ok: true, class: 0, overlap: false, peak: 0 };
+    // for the annotation: per thread, the pools in which OTHER threads' allocations succeeded since
+    // the thread last reached site 100 (start of the current iteration of allocate's loop)
+    let mut grew: Vec<[bool; 5]> = vec![[false; 5]; n];
+    let mut in_call = vec![false; n];
+    for (i, &t) in r.sched.iter().enumerate() {
+        let o = &r.obs[i];
+        if in_call.iter().enumerate().any(|(u, c)| *c && u != t) && o.code != 0 {
+            v.overlap = true;
+        }
+        for j in dones[t]..o.done {
+            let (Some(op), Some(res)) = (progs[t].get(j), r.results[t].get(j)) else { v.ok = false; return v };
+            match (*op, *res) {
+                (Op::A(p, nb), -1) => {
+                    bal[p] += nb as u128;
+                    if nb > 0 {
+                        for u in 0..n {
+                            if u != t {
+                                grew[u][p] = true;
+                            }
+                        }
+                    }
+                }
+                (Op::R(p, nb), -2) | (Op::G(_, p, nb), -2) => {
+                    if bal[p] < nb as u128 {
+                        bal[p] = 0;
+                        taint[p] = true;
+                    } else {
+                        bal[p] -= nb as u128;
+                    }
+                }
+                _ => {}
+            }
+        }
+        let total: u128 = o.cnts.iter().map(|x| *x as u128).sum();
+        v.peak = v.peak.max(total.min(u64::MAX as u128) as u64);
+        if total > r.lim as u128 && v.ok {
+            v.ok = false;
+            // which allocation of t completed in this step?
+            let mut own = 5;
+            for j in dones[t]..o.done {
+                if let (Some(Op::A(p, nb)), Some(-1)) = (progs[t].get(j), r.results[t].get(j)) {
+                    if *nb > 0 {
+                        own = *p;
+                    }
+                }
+            }
+            v.class = if own < 5 && (0..5).any(|q| q != own && grew[t][q]) {
+                1
+            } else if own < 5 && grew[t][own] {
+                2
+            } else {
+                3
+            };
+        }
+        for p in 0..5 {
+            if !taint[p] && o.cnts[p] as u128 != bal[p] && v.ok {
+                v.ok = false;
+                v.class = 4;
+            }
+        }
+        if o.code == 100 {
+            // a new loop iteration of allocate: everything is (re)loaded after this point
+            grew[t] = [false; 5];
+        }
+        dones[t] = o.done;
+        in_call[t] = o.code >= 100;
+    }
+    v
+}
+
+// ---------------------------------------------------------------- generators
+fn nominal_steps(p: &[Op]) -> usize {
+    1 + p
+        .iter()
+        .map(|o| match *o {
+            Op::A(_, n) => if n == 0 { 0 } else { 3 },
+            Op::R(_, n) | Op::G(_, _, n) => if n == 0 { 0 } else { 1 },
+        })
+        .sum::<usize>()
+}
+/// every sequence in which thread i occurs counts[i] times
+fn interleavings(counts: &[usize], cur: &mut Vec<usize>, left: &mut Vec<usize>, out: &mut Vec<Vec<usize>>) {
+    if left.iter().all(|c| *c == 0) {
+        out.push(cur.clone());
+        return;
+    }
+    for t in 0..counts.len() {
+        if left[t] > 0 {
+            left[t] -= 1;
+            cur.push(t);
+            interleavings(counts, cur, left, out);
+            cur.pop();
+            left[t] += 1;
+        }
+    }
+}
+fn all_schedules(progs: &[Vec<Op>]) -> Vec<Vec<usize>> {
+    let counts: Vec<usize> = progs.iter().map(|p| nominal_steps(p)).collect();
+    let mut out = vec![];
+    interleavings(&counts, &mut vec![], &mut counts.clone(), &mut out);
+    out
+}
+fn random_schedule(rng: &mut Rng, progs: &[Vec<Op>]) -> Vec<usize> {
+    let n = progs.len();
+    let total: usize = progs.iter().map(|p| nominal_steps(p)).sum::<usize>() + 2;
+    let mut s = vec![];
+    let style = rng.below(3);
+    while s.len() < total {
+        let t = rng.below(n as u64) as usize;
+        let run = match style {
+            0 => 1,
+            1 => 1 + rng.below(3) as usize,
+            _ => 1 + rng.below(6) as usize,
+        };
+        for _ in 0..run {
+            s.push(t);
+        }
+    }
+    let cut = rng.below(s.len() as u64 + 1) as usize;
+    if rng.chance(1, 4) {
+        s.truncate(cut);
+    }
+    s
+}
+
+const SIZES: [u64; 22] = [
+    1, 4096, 64 * K, 128 * K, 128 * K + 1, 256 * K, 256 * K + 1, 512 * K, 512 * K + 1, M, 3 * M / 2, 2 * M, 2 * M + 1,
+    5 * M / 2, 2944 * K, 3 * M, 3456 * K, 3456 * K + 1, 7 * M / 2, 4 * M - 1, 4 * M, 4 * M + 1,
+];
+fn rand_size(rng: &mut Rng) -> u64 {
+    match rng.below(10) {
+        0..=5 => *rng.pick(&SIZES),
+        6..=7 => (1 + rng.below(72)) * 64 * K,
+        8 => 1 + rng.below(4 * M + 4096),
+        _ => 3 * M + rng.below(M + 2),
+    }
+}
+fn rand_prog(rng: &mut Rng, pools: &[usize], max_ops: u64, wellformed: bool) -> Vec<Op> {
+    let nops = 1 + rng.below(max_ops) as usize;
+    let mut p: Vec<Op> = vec![];
+    for _ in 0..nops {
+        let allocs: Vec<usize> = p.iter().enumerate().filter(|(_, o)| matches!(o, Op::A(..))).map(|(i, _)| i).collect();
+        let roll = rng.below(100);
+        if roll < 55 || allocs.is_empty() {
+            p.push(Op::A(*rng.pick(pools), rand_size(rng)));
+        } else if roll < 88 || wellformed {
+            // release what an earlier allocate of this thread obtained (each at most once when well-formed)
+            let free: Vec<usize> = allocs.iter().copied().filter(|k| !p.iter().any(|o| matches!(o, Op::G(k2, ..) if k2 == k))).collect();
+            let k = if wellformed && !free.is_empty() { *rng.pick(&free) } else { *rng.pick(&allocs) };
+            if wellformed && free.is_empty() {
+                p.push(Op::A(*rng.pick(pools), rand_size(rng)));
+            } else if let Op::A(pp, nn) = p[k] {
+                p.push(Op::G(k, pp, nn));
+            }
+        } else {
+            p.push(Op::R(*rng.pick(pools), rand_size(rng)));
+        }
+    }
+    p
+}
+
+type CaseIn = (u64, Vec<Vec<Op>>, Vec<usize>, &'static str);
+
+fn enumerated(quick: bool) -> Vec<CaseIn> {
+    let mut out: Vec<CaseIn> = vec![];
+    let lim = 4 * M;
+    let (c, q, r, s, h) = (0usize, 1usize, 2usize, 3usize, 4usize);
+    // two threads, one allocate each: all 70 interleavings
+    let cross: Vec<(usize, u64, usize, u64)> = vec![
+        (c, 3 * M, q, 3 * M), (c, 2 * M, h, 2 * M), (c, 2 * M, h, 2 * M + 1), (q, M, r, M), (h, 3 * M, s, 5 * M / 2),
+        (q, 3 * M, h, M + 1), (c, 3456 * K, q, 640 * K), (r, 256 * K, s, 128 * K),
+    ];
+    for (i, (p0, n0, p1, n1)) in cross.iter().enumerate() {
+        if quick && i >= 6 { break; }
+        let progs = vec![vec![Op::A(*p0, *n0)], vec![Op::A(*p1, *n1)]];
+        for sc in all_schedules(&progs) {
+            out.push((lim, progs.clone(), sc, "enum_cross_pool"));
+        }
+    }
+    let same: Vec<(usize, u64, u64)> = vec![(h, 3 * M, 3 * M), (c, 2 * M, 2 * M), (h, 2 * M, 2 * M + 1), (q, M, M), (c, 3456 * K, 1), (h, 4 * M, 1)];
+    for (i, (p, n0, n1)) in same.iter().enumerate() {
+        if quick && i >= 4 { break; }
+        let progs = vec![vec![Op::A(*p, *n0)], vec![Op::A(*p, *n1)]];
+        for sc in all_schedules(&progs) {
+            out.push((lim, progs.clone(), sc, "enum_same_pool"));
+        }
+    }
+    // ABA: t1 allocates, releases and allocates again in the pool in which t0 allocates
+    let aba: Vec<(usize, u64, u64)> = vec![(h, 7 * M / 2, M), (c, 3 * M, 512 * K), (q, 3 * M, 5 * M / 4)];
+    for (i, (p, big, small)) in aba.iter().enumerate() {
+        if quick && i >= 2 { break; }
+        let progs = vec![vec![Op::A(*p, *big)], vec![Op::A(*p, *small), Op::G(0, *p, *small), Op::A(*p, *small)]];
+        for sc in all_schedules(&progs) {
+            out.push((lim, progs.clone(), sc, "enum_aba"));
+        }
+    }
+    // allocate + guarded release on both sides
+    let ar: Vec<(usize, u64, usize, u64)> = vec![(q, 3 * M, q, 2 * M), (c, 3 * M, h, 2 * M), (h, 4 * M, h, 4 * M)];
+    for (i, (p0, n0, p1, n1)) in ar.iter().enumerate() {
+        if quick && i >= 2 { break; }
+        let progs = vec![vec![Op::A(*p0, *n0), Op::G(0, *p0, *n0)], vec![Op::A(*p1, *n1), Op::G(0, *p1, *n1)]];
+        for sc in all_schedules(&progs) {
+            out.push((lim, progs.clone(), sc, "enum_alloc_release"));
+        }
+    }
+    out
+}
+
+fn random_case(rng: &mut Rng, thorough: bool) -> CaseIn {
+    let roll = rng.below(100);
+    let limreq = match rng.below(10) {
+        0 => 0,
+        1 => 5 * M,
+        2 => 8 * M,
+        3 => 4 * M + 1,
+        _ => 4 * M,
+    };
+    if roll < 12 {
+        // malformed / misuse: raw releases, zero and huge byte counts, empty programs, dangling guards
+        let nthreads = 1 + rng.below(3) as usize;
+        let mut progs = vec![];
+        for _ in 0..nthreads {
+            let nops = rng.below(4) as usize;
+            let mut p = vec![];
+            for _ in 0..nops {
+                let pool = rng.below(5) as usize;
+                let nb = match rng.below(8) {
+                    0 => 0,
+                    1 => u64::MAX,
+                    2 => u64::MAX - rng.below(4 * M),
+                    3 => 1u64 << 63,
+                    _ => rand_size(rng),
+                };
+                p.push(match rng.below(4) {
+                    0 | 1 => Op::A(pool, nb),
+                    2 => Op::R(pool, nb),
+                    _ => Op::G(rng.below(4) as usize, pool, nb),
+                });
+            }
+            progs.push(p);
+        }
+        let limreq = if rng.chance(1, 6) { u64::MAX - rng.below(3) } else { limreq };
+        let sc = random_schedule(rng, &progs);
+        return (limreq, progs, sc, "malformed");
+    }
+    let nthreads = if roll < 60 { 2 } else { 3 };
+    let (pools, kind): (Vec<usize>, &'static str) = match rng.below(3) {
+        0 => (vec![rng.below(5) as usize], if nthreads == 2 { "rand2_same_pool" } else { "rand3_same_pool" }),
+        1 => {
+            let a = rng.below(5) as usize;
+            let b = (a + 1 + rng.below(4) as usize) % 5;
+            (vec![a, b], if nthreads == 2 { "rand2_two_pools" } else { "rand3_two_pools" })
+        }
+        _ => (vec![0, 1, 2, 3, 4], if nthreads == 2 { "rand2_any_pool" } else { "rand3_any_pool" }),
+    };
+    let wellformed = rng.chance(3, 4);
+    let max_ops = if thorough { 4 } else { 3 };
+    let progs: Vec<Vec<Op>> = (0..nthreads).map(|_| rand_prog(rng, &pools, max_ops, wellformed)).collect();
+    let sc = random_schedule(rng, &progs);
+    (limreq, progs, sc, kind)
 }
 
 fn main() {
-    let m = 1024 * 1024;
-    eprintln!("== cross pool");
-    run(&[0, 0, 0, 1, 1, 1, 0, 1], vec![vec![(true, Pool::Cache, 3 * m)], vec![(true, Pool::Query, 3 * m)]]);
-    eprintln!("== ABA same pool");
-    // t1 prepared: pool Shared holds 1m already (by t1 itself first)
-    run(&[1, 1, 1, 1, 0, 1, 1, 1, 0, 0, 1, 1, 1, 1, 0, 0], vec![vec![(true, Pool::Shared, 3 * m)], vec![(true, Pool::Shared, 1 * m), (false, Pool::Shared, 1 * m), (true, Pool::Shared, 1 * m)]]);
+    let a = Args::parse();
+    match a.mode.as_str() {
+        "gen" => gen(&a),
+        "search" => search(&a),
+        _ => {
+            eprintln!("c39: unknown mode");
+            std::process::exit(2);
+        }
+    }
+}
+
+fn gen(a: &Args) {
+    let mut rng = Rng::new(a.seed);
+    let mut w = CaseWriter::new(&a.out, "C39", "Corr.C39", 400);
+    let mut cases: Vec<CaseIn> = vec![];
+    if let Some(lines) = a.replay_lines() {
+        for l in lines {
+            match parse_line(&l) {
+                Some((lim, progs, sc)) => cases.push((lim, progs, sc, "replay")),
+                None => eprintln!("c39: cannot parse replay line: {}", l),
+            }
+        }
+    } else {
+        cases = enumerated(!a.thorough());
+        let nrand = if a.thorough() { 60_000 } else { 3_000 };
+        for _ in 0..nrand {
+            cases.push(random_case(&mut rng, a.thorough()));
+        }
+    }
+    let (mut over, mut overlap, mut failed_alloc, mut panics, mut retries) = (0u64, 0u64, 0u64, 0u64, 0u64);
+    let mut over_class = [0u64; 5];
+    for (limreq, progs, sc, kind) in cases {
+        let r = run_case(limreq, &progs, &sc);
+        let v = judge(&progs, &r);
+        if !v.ok {
+            over += 1;
+            over_class[v.class.min(4) as usize] += 1;
+        }
+        if v.overlap { overlap += 1; }
+        let any_err = r.results.iter().flatten().any(|x| *x >= 0);
+        if any_err { failed_alloc += 1; }
+        if r.results.iter().flatten().any(|x| *x == -4) { panics += 1; }
+        // a CAS retry shows as a thread reaching site 100 / 112 twice for one call: more steps than nominal
+        let nominal: usize = progs.iter().map(|p| nominal_steps(p)).sum();
+        if r.obs.iter().filter(|o| o.code != 0).count() > nominal { retries += 1; }
+        // non-trivial: calls of two threads overlapped and the budget mattered
+        let nontrivial = v.overlap && (any_err || v.peak >= r.lim / 2 || !v.ok);
+        w.push(case_term(limreq, &progs, &r), replay_line(limreq, &progs, &sc), nontrivial, kind);
+    }
+    w.finish(&[
+        ("oracle_failures_observed".into(), over.to_string()),
+        ("limit_exceeded_other_pool_grew".into(), over_class[1].to_string()),
+        ("limit_exceeded_same_pool_aba".into(), over_class[2].to_string()),
+        ("limit_exceeded_unexplained".into(), over_class[3].to_string()),
+        ("accounting_mismatch".into(), over_class[4].to_string()),
+        ("cases_with_overlapping_calls".into(), overlap.to_string()),
+        ("cases_with_failed_allocate".into(), failed_alloc.to_string()),
+        ("cases_with_panic".into(), panics.to_string()),
+        ("cases_with_cas_retry".into(), retries.to_string()),
+    ]);
+}
+
+/// Oracle only (no model): total_used <= limit after every step and exact per-pool accounting.
+fn search(a: &Args) {
+    let mut rng = Rng::new(a.seed ^ 0xC39_5EA7);
+    let mut fails: Vec<String> = vec![];
+    let mut tried: u64 = 0;
+    let mut seen_class = [0u32; 5];
+    let budget = a.budget.min(400_000);
+    let mut run_one = |limreq: u64, progs: &Vec<Vec<Op>>, sc: &Vec<usize>, fails: &mut Vec<String>| {
+        let r = run_case(limreq, progs, sc);
+        let v = judge(progs, &r);
+        if !v.ok {
+            let c = v.class.min(4) as usize;
+            seen_class[c] += 1;
+            // keep a few of each annotation so that an unexplained one is never crowded out
+            if seen_class[c] <= 8 {
+                fails.push(format!("{} class={}", replay_line(limreq, progs, sc), v.class));
+            }
+        }
+    };
+    for (limreq, progs, sc, _) in enumerated(false) {
+        run_one(limreq, &progs, &sc, &mut fails);
+        tried += 1;
+    }
+    while tried < budget {
+        let (limreq, progs, sc, _) = random_case(&mut rng, true);
+        run_one(limreq, &progs, &sc, &mut fails);
+        tried += 1;
+    }
+    // unexplained ones first
+    fails.sort_by_key(|f| if f.ends_with("class=3") || f.ends_with("class=4") { 0 } else { 1 });
+    let mut out = String::new();
+    out.push_str(&format!("tried={}\n", tried));
+    for f in &fails {
+        out.push_str("FAIL ");
+        out.push_str(f);
+        out.push('\n');
+    }
+    std::fs::write(&a.out, out).expect("write search output");
 }
